@@ -62,6 +62,12 @@ RECURSIVE SplitOn(_, _)
 SplitOn(s, c) == LET i == FindCh(s, c, 1)
                  IN IF i = 0 THEN <<s>> ELSE <<Take(s, i - 1)>> \o SplitOn(Drop(s, i), c)
 
+\* html.EscapeString: the five HTML metacharacters
+EscCh(c) == CASE c = "<" -> "&lt;" [] c = ">" -> "&gt;" [] c = "&" -> "&amp;" [] c = "'" -> "&#39;" [] c = "\"" -> "&#34;" [] OTHER -> c
+RECURSIVE HtmlEscapeFrom(_, _)
+HtmlEscapeFrom(s, i) == IF i > Len(s) THEN "" ELSE EscCh(Ch(s, i)) \o HtmlEscapeFrom(s, i + 1)
+HtmlEscape(s) == HtmlEscapeFrom(s, 1)
+
 ToSet(seq) == {seq[i] : i \in 1..Len(seq)}
 SeqMap(F(_), seq) == [i \in 1..Len(seq) |-> F(seq[i])]
 
